@@ -52,32 +52,32 @@ CLAIMS = {
          "routed-exactly-once / every-<r/>-answered / no phantom for all interleavings up to the bound and emits every environment history; "
          "each history is played by the scripted server against a real Client (lock-step barriers, plus chunked, big and burst variants, SM on "
          "and off, worker subprocesses so a panic is an observation) and TLC compares, barrier by barrier, handler calls and answers with the model.",
-    note="Trusted: TLC, the scripted server's element splitter, the verif hooks used only to detect quiescence. The happy-path negotiation (PLAIN without TLS, bind, <enabled resume=true>) is a precondition. Exhaustive only within the bounds in the evidence; beyond them seeded variants (chunked writes, big stanzas, RST, burst histories). WebSocket transport not yet driven by this check.", technique=TECH),
+    note="Trusted: TLC, the scripted server's element splitter, the verif hooks used only to detect quiescence. The happy-path negotiation (PLAIN without TLS, bind, <enabled resume=true>) is a precondition. Exhaustive only within the bounds in the evidence; beyond them seeded variants (chunked writes, big stanzas, RST, burst histories). Every scenario family is also driven over the WebSocket transport (RFC 7395 framing, in-process server) for a sample of the histories; write faults over WebSocket are injected at the dialled TCP connection.", technique=TECH),
  "C09": dict(
     text="Same model and pipeline as C05 with the inbound alphabet {message, presence, iq, <r/>, <a/>, features}: TLC checks that the "
          "reference counter equals the number of stanzas before each request; on the real client every <a/> the server receives and the "
          "public SMState.Inbound at every barrier must equal the reference count; burst histories up to 65 elements. The h of <resume/> is checked by C11.",
-    note="Trusted: TLC, the scripted server's element splitter, the verif hooks used only to detect quiescence. The happy-path negotiation (PLAIN without TLS, bind, <enabled resume=true>) is a precondition. Exhaustive only within the bounds in the evidence; beyond them seeded variants (chunked writes, big stanzas, RST, burst histories). WebSocket transport not yet driven by this check.", technique=TECH),
+    note="Trusted: TLC, the scripted server's element splitter, the verif hooks used only to detect quiescence. The happy-path negotiation (PLAIN without TLS, bind, <enabled resume=true>) is a precondition. Exhaustive only within the bounds in the evidence; beyond them seeded variants (chunked writes, big stanzas, RST, burst histories). Every scenario family is also driven over the WebSocket transport (RFC 7395 framing, in-process server) for a sample of the histories; write faults over WebSocket are injected at the dialled TCP connection.", technique=TECH),
  "C10": dict(
     text="Session.tla models numbering, holding, acknowledgement and retransmission; TLC checks the bookkeeping invariants and the ack-step "
          "action property for all interleavings and emits every history of Send/SendRaw/SendIQ (stanzas, <r/>, <a/>) and server acks with any h; "
          "on the real client the wire output after every step and the exported queue (tags, ids) must equal the model's under at least one "
          "of the two readings of renumbering.",
-    note="Trusted: TLC, the scripted server's element splitter, the verif hooks used only to detect quiescence. The happy-path negotiation (PLAIN without TLS, bind, <enabled resume=true>) is a precondition. Exhaustive only within the bounds in the evidence; beyond them seeded variants (chunked writes, big stanzas, RST, burst histories). WebSocket transport not yet driven by this check." + " Concurrent senders racing with acknowledgement processing are covered by C08's stress driver only for loss/duplication, not for the exact ack arithmetic.", technique=TECH),
+    note="Trusted: TLC, the scripted server's element splitter, the verif hooks used only to detect quiescence. The happy-path negotiation (PLAIN without TLS, bind, <enabled resume=true>) is a precondition. Exhaustive only within the bounds in the evidence; beyond them seeded variants (chunked writes, big stanzas, RST, burst histories). Every scenario family is also driven over the WebSocket transport (RFC 7395 framing, in-process server) for a sample of the histories; write faults over WebSocket are injected at the dialled TCP connection." + " Concurrent senders racing with acknowledgement processing are covered by C08's stress driver only for loss/duplication, not for the exact ack arithmetic.", technique=TECH),
  "C12": dict(
     text="Session.tla's ServerCut/RecvErr; every generated history is cut at every element boundary, and the harness additionally cuts at "
          "every byte offset of every element kind (FIN and RST) and injects write failures; TLC checks exactly one error callback, exactly one "
          "Disconnected event carrying the SM state, all complete stanzas routed, receive loop and keepalive ended (hooks), no library goroutine "
          "left (stack dump), no panic (worker survives).",
-    note="Trusted: TLC, the scripted server's element splitter, the verif hooks used only to detect quiescence. The happy-path negotiation (PLAIN without TLS, bind, <enabled resume=true>) is a precondition. Exhaustive only within the bounds in the evidence; beyond them seeded variants (chunked writes, big stanzas, RST, burst histories). WebSocket transport not yet driven by this check.", technique=TECH),
+    note="Trusted: TLC, the scripted server's element splitter, the verif hooks used only to detect quiescence. The happy-path negotiation (PLAIN without TLS, bind, <enabled resume=true>) is a precondition. Exhaustive only within the bounds in the evidence; beyond them seeded variants (chunked writes, big stanzas, RST, burst histories). Every scenario family is also driven over the WebSocket transport (RFC 7395 framing, in-process server) for a sample of the histories; write faults over WebSocket are injected at the dialled TCP connection.", technique=TECH),
  "C08": dict(
     text="SendPath.tla models each send as serialise(+queue push) then ONE atomic transport write, for N concurrent senders with a write "
          "fault at the k-th write; TLC checks wire-is-a-shuffle-of-whole-stanzas / failed-write-reported / pushed-once for all schedules and shows "
          "that a split-write variant violates the invariant (non-vacuity). Every schedule of 2 senders x 2 sends is replayed on a real Client "
          "through the gate between serialisation and write (Send, SendRaw, SendIQ mixed; SM on/off; stream logger on/off; total and partial write "
          "faults), plus ungated stress runs with up to 8 senders; the server matches every received top-level element byte-for-byte and TLC judges the trace.",
-    note="Trusted: TLC, the server-side element splitter and byte comparison, atomicity of one Write call on net.Conn. Client over TCP only so far "
-         "(WebSocket and component send paths are not yet driven). Log-file layout is not asserted.",
+    note="Trusted: TLC, the server-side element splitter and byte comparison, atomicity of one Write call on net.Conn. Client over TCP and WebSocket, and "
+         "Component (XEP-0114) senders with big payloads in the stress runs. Log-file layout is not asserted.",
     technique=TECH),
  "C03": dict(
     text="Negotiation.tla is a stage machine of the client's negotiation (open, STARTTLS, TLS handshake, restart, SASL, restart, resume | bind, "
@@ -132,7 +132,8 @@ CLAIMS = {
          "the write path (unwritable <a/>). TLC judges counts, order and the time bounds.",
     note="Trusted: TLC, wall-clock timestamps of the harness (upper bound exact: pings <= elapsed/interval + 1; lower bound tolerant: at least "
          "half). At most one keepalive after the end of a session is accepted (its tick was already due). WebSocket pings are not driven. "
-         "Interference of an old session's keepalive with a connection re-established by a StreamManager is not covered.",
+         "Every session of a StreamManager run (first, resumed, freshly bound after a loss) is observed for 20 intervals through the lifecycle family and must "
+         "show its own keepalives; failing pings return plain and timeout-class (net.Error) errors.",
     technique=TECH),
  "C07": dict(
     text="IQRoutes.tla models SendIQ callers, receivers (reading or abandoning), context goroutines, the server and one dispatch goroutine per "
